@@ -20,6 +20,9 @@ class Decoder8b(Decoder):
                         width:int, w_size:int) -> bytes:
         # Create a white image        
         w = w - padding_w
+        # Pixels of a row that belong to the image. A row with an odd number
+        # of pixels is followed by one alignment byte that is not a pixel.
+        w_img = w
         w = w + (w%2)
         
         if w + padding_w > width:
@@ -55,8 +58,9 @@ class Decoder8b(Decoder):
                                       +"(x=%s y=%s col=%s)", x, y, run_value)
                         break
 
-                    p = y*width + x + padding_w
-                    data[p] = run_value
+                    if x < w_img:
+                        p = y*width + x + padding_w
+                        data[p] = run_value
                     x += 1
                 
                 if x >= w:
@@ -81,8 +85,9 @@ class Decoder8b(Decoder):
                                       fdata[idx])
                         break
                     
-                    p = y*width + x + padding_w
-                    data[p] = fdata[idx]
+                    if x < w_img:
+                        p = y*width + x + padding_w
+                        data[p] = fdata[idx]
                     x += 1            
     
                     idx = idx + 1
